@@ -1,16 +1,29 @@
 #!/usr/bin/env python3
-"""tools/index_theorems.py Cxx [module ...] — (re)writes the theorem list of a property in obligations.json
-from the `theorem` declarations of lean/Fcgi/Props/Cxx.lean (development-time helper; the committed list is
-what ./check audits, so a theorem deleted or renamed later is a broken obligation)."""
+"""tools/index_theorems.py Cxx [PropsFile ...] — (re)writes the theorem list of a property in obligations.json from the
+`theorem` declarations of lean/Fcgi/Props/<file>.lean (default file: Cxx). Development-time helper; the committed list is
+what ./check audits, so a theorem deleted or renamed later is a broken obligation."""
 import json, re, sys, os
 ROOT = os.path.dirname(os.path.dirname(os.path.abspath(__file__)))
 prop = sys.argv[1]
+files = sys.argv[2:] or [prop]
 idx = json.load(open(os.path.join(ROOT, "obligations.json")))
-src = open(os.path.join(ROOT, "lean", "Fcgi", "Props", prop + ".lean")).read()
-ns = re.search(r"^namespace\s+(\S+)", src, re.M).group(1)
-names = [ns + "." + m for m in re.findall(r"^(?:protected\s+)?theorem\s+([A-Za-z_0-9.'!?]+)", src, re.M)]
-e = idx.setdefault(prop, {"modules": ["Fcgi.Props." + prop], "theorems": [], "modelled": "", "assumptions": [], "open": []})
+names, opens = [], []
+for fn in files:
+    src = open(os.path.join(ROOT, "lean", "Fcgi", "Props", fn + ".lean")).read()
+    # track namespaces (simple: top-level `namespace X` ... `end X`)
+    ns_stack = []
+    for line in src.split("\n"):
+        m = re.match(r"^namespace\s+(\S+)", line)
+        if m: ns_stack.append(m.group(1)); continue
+        m = re.match(r"^end\s+(\S+)", line)
+        if m and ns_stack and ns_stack[-1].endswith(m.group(1).split(".")[-1]): ns_stack.pop(); continue
+        m = re.match(r"^(?:protected\s+)?theorem\s+([A-Za-z_0-9.'!?]+)", line)
+        if m: names.append(".".join(ns_stack + [m.group(1)]))
+        m = re.match(r"^def\s+([A-Za-z_0-9.']+_full)\b", line)
+        if m: opens.append(".".join(ns_stack + [m.group(1)]))
+e = idx.setdefault(prop, {"modules": [], "theorems": [], "modelled": "", "assumptions": [], "open": []})
+e["modules"] = ["Fcgi.Props." + f for f in files]
 e["theorems"] = names
-e["open"] = [ns + "." + m for m in re.findall(r"^def\s+([A-Za-z_0-9.']+_full)\b", src, re.M)]
+e["open"] = opens
 json.dump(idx, open(os.path.join(ROOT, "obligations.json"), "w"), indent=1)
-print(prop, len(names), "theorems;", len(e["open"]), "open statements")
+print(prop, len(names), "theorems;", len(opens), "open statements", opens)
